@@ -186,7 +186,24 @@ func checkFields(text string, ast *ref.Node) string {
 			return fmt.Sprintf("non-local analysis of %q = %v contains %q, which the full analysis %v does not", text, notLocal, k, all)
 		}
 	}
+	// stability: calling the two functions again, in the other order, on the same source gives the same sets,
+	// and slices returned earlier are not disturbed by later calls
+	allBefore := fmt.Sprint(sortedCopy(all))
+	nl2, _ := formula.ResolveReferenceFieldsNotLocal(p.Src)
+	all2, _ := formula.ResolveReferenceFields(p.Src)
+	if fmt.Sprint(sortedCopy(all)) != allBefore {
+		return fmt.Sprintf("a later analysis call changed the slice returned earlier for %q: now %v, was %v", text, all, allBefore)
+	}
+	if fmt.Sprint(sortedCopy(all2)) != allBefore || fmt.Sprint(sortedCopy(nl2)) != fmt.Sprint(sortedCopy(notLocal)) {
+		return fmt.Sprintf("repeating the analysis of %q gives %v / %v, the first time %v / %v", text, all2, nl2, all, notLocal)
+	}
 	return ""
+}
+
+func sortedCopy(xs []string) []string {
+	out := append([]string{}, xs...)
+	sort.Strings(out)
+	return out
 }
 
 // ---- sufficiency ------------------------------------------------------------
